@@ -2,6 +2,7 @@ use crate::h::core::Tier;
 use crate::h::driver::PropDef;
 use crate::h::scenario::Scenario;
 
+pub mod c18;
 pub mod c19;
 
 fn c19_work(seed: u64, tier: Tier, idx: u64) -> Option<Scenario> {
@@ -24,7 +25,39 @@ fn c19_work(seed: u64, tier: Tier, idx: u64) -> Option<Scenario> {
     }
 }
 
+fn c18_work(seed: u64, tier: Tier, idx: u64) -> Option<Scenario> {
+    // sweep: end of input after every byte prefix of the corpus sessions; then seeded scenarios
+    let corpus = if tier == Tier::Quick { 2 } else { 40 };
+    let random = if tier == Tier::Quick { 150_000 } else { 6_000_000 };
+    let mut i = idx;
+    for (k, n) in c18::sweep_sizes(seed, corpus) {
+        if i < n as u64 {
+            return Some(c18::sweep(seed, k, i as usize));
+        }
+        i -= n as u64;
+    }
+    if i < random {
+        Some(c18::generate(seed, i))
+    } else {
+        None
+    }
+}
+
 static DEFS: &[PropDef] = &[PropDef {
+    id: "C18",
+    level: "exploration",
+    work: c18_work,
+    judge: c18::judge,
+    rule: "each scenario = one client session over the lifecycle alphabet {initialize, initialized, supported request, $/verif/text, unknown request, didOpen/didChange/didClose, unknown notification, shutdown, exit} of length <= 12 in arbitrary order, with a seeded delivery (segmentation, read sizes, schedule, channel capacities 1..33, stdout capacity) and optionally one fault: end of input after a byte prefix (systematically every prefix of the corpus sessions, seeded otherwise), client closing its read end, client stalling; judged against the 5-state lifecycle reference model; non-trivial = at least one fault/back-pressure/yield fired and a frame was emitted; distinct = distinct interleaving signature",
+    assumptions: &[
+        "request ids are integers that fit i32 (io::Request.id)",
+        "between the initialize answer and `initialized` the property prescribes nothing but exactly one in-order response per request (the code answers ServerNotInitialized)",
+        "`exit` without `shutdown` and end of input inside a frame are abnormal terminations: the written responses must be a prefix of the owed ones; completeness is required after shutdown+exit and after end of input on a frame boundary",
+        "promptness is judged in scheduler steps (bound 20000 + 400/frame + 8/byte); tokio's blocking stdin thread is below the seam",
+        "after the client closed its read end only termination is checked",
+    ],
+    wall_cap: (150, 1500),
+}, PropDef {
     id: "C19",
     level: "fault_enumeration",
     work: c19_work,
